@@ -6,6 +6,7 @@ use bytes::Bytes;
 use super::{
     bounds::{ByKeyBounds, RecordsBounds},
     tables::{RecordsByKeyIdOwned, RecordsIdOwned},
+    Store, StoreInstance,
 };
 use crate::{
     store::KeyFilter,
@@ -155,4 +156,49 @@ pub fn bounds_bykey<S: Src, const P: usize, const K: usize, const FULL: bool>(s:
     );
     let got = ByKeyBounds::namespace(NamespaceId::from(&ns)).contains(&id);
     ck!(s, got == (cns == ns), "by-key namespace range contains exactly the rows of that namespace");
+}
+
+// ---------------------------------------------------------------------------------------------
+// E2: the real storage layer over the redb model (natively: over real redb)
+// ---------------------------------------------------------------------------------------------
+use crate::ranger::{InsertOutcome, Store as RangerStore};
+use crate::sync::{Entry, EntrySignature, Record, RecordIdentifier, SignedEntry};
+use iroh_blobs::Hash;
+
+pub const NS: [u8; 32] = [0x11; 32];
+pub const AUTHOR_A: [u8; 32] = [0xA1; 32];
+pub const AUTHOR_B: [u8; 32] = [0xB2; 32];
+
+/// key shapes: the 0xFF / prefix / empty-key edge cases named by the properties
+pub const MENU: [&[u8]; 8] = [b"", b"a", b"a\xff", b"a\xff\x00", b"b", b"ab", b"\xff", b"\xff\xff"];
+
+pub fn mk_entry(ns: [u8; 32], author: [u8; 32], key: &[u8], ts: u64, tombstone: bool, hbyte: u8) -> SignedEntry {
+    let id = RecordIdentifier::new(NamespaceId::from(&ns), AuthorId::from(&author), key);
+    let record = if tombstone {
+        Record::empty(ts)
+    } else {
+        let mut h = [0x33u8; 32];
+        h[0] = hbyte;
+        Record::new(Hash::from_bytes(h), 7, ts)
+    };
+    SignedEntry::new(EntrySignature::from_parts(&[1u8; 64], &[2u8; 64]), Entry::new(id, record))
+}
+
+/// Kill-criterion probe (DESIGN.md §3.4): real `Store::memory` + `StoreInstance::put` twice + `get_exact`.
+pub fn e2_probe<S: Src>(s: &mut S) {
+    let mut store = Store::memory();
+    let ns = NamespaceId::from(&NS);
+    let (t1, t2) = (s.u64(), s.u64());
+    let e1 = mk_entry(NS, AUTHOR_A, b"a", t1, false, 1);
+    let e2 = mk_entry(NS, AUTHOR_A, b"ab", t2, false, 2);
+    let mut inst = StoreInstance::new(ns, &mut store);
+    let o1 = inst.put(e1).unwrap();
+    ck!(s, matches!(o1, InsertOutcome::Inserted { removed: 0 }), "first entry inserted into the empty store");
+    let o2 = inst.put(e2).unwrap();
+    let admitted = t2 > t1 || (t2 == t1 && false);
+    cv!(s, matches!(o2, InsertOutcome::Inserted { .. }), "e2_probe: second entry admitted");
+    cv!(s, matches!(o2, InsertOutcome::NotInserted), "e2_probe: second entry rejected");
+    let got = store.get_exact(ns, AuthorId::from(&AUTHOR_A), b"ab", true).unwrap();
+    ck!(s, got.is_some() == matches!(o2, InsertOutcome::Inserted { .. }), "get_exact finds the entry iff it was inserted");
+    std::mem::forget(store);
 }
